@@ -1,7 +1,522 @@
 package main
 
+// Glue stream of C15: generated programs go through the public API
+// (api.Transform for classic scripts, api.Build for module graphs) and the
+// property's predicate is evaluated by executing input and output in Node:
+// every probed reference must read the same declaration, free globals must
+// still be the globals, eval/with code must still find its names, top-level
+// names of unwrapped scripts and export names must be unchanged, and a
+// mangled property must be consistent with the returned mangle cache.
+
 import (
+	"encoding/json"
+	"fmt"
+	"os"
+	"os/exec"
+	"path/filepath"
+	"sort"
+	"strings"
+
+	"github.com/evanw/esbuild/pkg/api"
 	. "github.com/evanw/esbuild/verifharness/hlib"
 )
 
-func runGlue(r *Rng, n int, tier string, st *Stats) {}
+type scriptCase struct {
+	kind     string
+	src      string
+	opts     api.TransformOptions
+	optDesc  string
+	top      []string
+	scenario string
+}
+
+func epilogue(top []string) string {
+	var sb strings.Builder
+	seen := map[string]bool{}
+	for _, n := range top {
+		if seen[n] {
+			continue
+		}
+		seen[n] = true
+		fmt.Fprintf(&sb, "$q(\"top:%s\", () => $v(%s));\n", n, n)
+	}
+	return sb.String()
+}
+
+func genScriptCase(r *Rng, feat map[string]int) scriptCase {
+	g := &jsgen{r: r, features: feat}
+	g.noEval = r.Chance(65)
+	sc := scriptCase{kind: "script"}
+	opts := api.TransformOptions{Loader: api.LoaderJS, LogLevel: api.LogLevelSilent}
+	var desc []string
+	if r.Chance(65) {
+		opts.MinifyIdentifiers = true
+		desc = append(desc, "minify-identifiers")
+	}
+	switch r.Intn(4) {
+	case 0:
+		opts.Format = api.FormatIIFE
+		desc = append(desc, "format=iife")
+	case 1:
+		opts.Format = api.FormatIIFE
+		opts.GlobalName = r.Pick([]string{"lib", "myLib"})
+		desc = append(desc, "format=iife global-name="+opts.GlobalName)
+	}
+	if r.Chance(20) {
+		opts.KeepNames = true
+		desc = append(desc, "keep-names")
+	}
+	if r.Chance(20) {
+		g.jsx = true
+		opts.Loader = api.LoaderJSX
+		opts.JSX = api.JSXPreserve
+		desc = append(desc, "jsx=preserve")
+	}
+	if r.Chance(20) {
+		g.props = true
+		opts.MangleProps = "_$"
+		desc = append(desc, "mangle-props=_$")
+		if r.Bool() {
+			opts.MangleQuoted = api.MangleQuotedTrue
+			desc = append(desc, "mangle-quoted")
+		}
+		if r.Bool() {
+			opts.MangleCache = map[string]interface{}{"foo_": "zz", "baz_": false}
+			desc = append(desc, "mangle-cache={foo_:zz,baz_:false}")
+		}
+		if r.Chance(30) {
+			opts.ReserveProps = "^x2_$"
+			desc = append(desc, "reserve-props=^x2_$")
+		}
+	}
+	if r.Chance(15) {
+		opts.MinifySyntax = true
+		desc = append(desc, "minify-syntax")
+	}
+	sc.src, sc.top = g.script(r.Range(3, 7))
+	sc.opts = opts
+	sc.optDesc = strings.Join(desc, " ")
+	return sc
+}
+
+// the fixed corpus: inputs of findings (fixed or known), replayed on every run
+func fixedScriptCorpus() []scriptCase {
+	jsxOpts := api.TransformOptions{Loader: api.LoaderJSX, JSX: api.JSXPreserve, MinifyIdentifiers: true, LogLevel: api.LogLevelSilent}
+	return []scriptCase{
+		{kind: "script", scenario: "jsx-capital-skips-reserved",
+			src:  progPrelude + globalsPrelude() + "function f(g) { let Comp = g(); return <Comp x={C}/> }\n$p(\"r\", f(() => \"dComp\"));\n",
+			opts: jsxOpts, optDesc: "minify-identifiers jsx=preserve"},
+		{kind: "script", scenario: "jsx-capital-skips-reserved-all-capitals",
+			src: progPrelude + globalsPrelude() + "function f(g) { let Comp = g(); return <Comp x={[typeof A, typeof B, typeof C, typeof D, typeof E, typeof F, typeof G, typeof H, typeof I, typeof J, typeof K, typeof L, typeof M, typeof N, typeof O, typeof P, typeof Q, typeof R, typeof S, typeof T, typeof U, typeof V, typeof W, typeof X, typeof Y, typeof Z, typeof _, typeof $].join()}/> }\n" +
+				"$p(\"r\", f(() => \"dComp\"));\n",
+			opts: jsxOpts, optDesc: "minify-identifiers jsx=preserve"},
+		{kind: "script", scenario: "annexb-function-in-block-shadows-parameter",
+			src:  progPrelude + globalsPrelude() + "function fn1(t) { { function t() {} } return typeof t }\n$p(\"r\", fn1(\"s\"));\n",
+			opts: api.TransformOptions{Loader: api.LoaderJS, LogLevel: api.LogLevelSilent}, optDesc: "(defaults)"},
+	}
+}
+
+// JSX output cannot run: lower it with a second, non-renaming transform
+func lowerJSX(code string) (string, error) {
+	res := api.Transform(code, api.TransformOptions{Loader: api.LoaderJSX, JSX: api.JSXTransform, LogLevel: api.LogLevelSilent})
+	if len(res.Errors) > 0 {
+		return "", fmt.Errorf("%s", res.Errors[0].Text)
+	}
+	return string(res.Code), nil
+}
+
+func runScriptCases(cases []scriptCase, st *Stats) {
+	type pending struct {
+		c        scriptCase
+		in, out  string
+		cacheEpi bool
+	}
+	var progs []string
+	var pend []pending
+	for _, c := range cases {
+		res := api.Transform(c.src, c.opts)
+		st.Evaluations++
+		st.Histogram["glue-transform"]++
+		if len(res.Errors) > 0 {
+			st.Histogram["glue-transform-rejected"]++
+			continue
+		}
+		in, out := c.src, string(res.Code)
+		if c.opts.JSX == api.JSXPreserve {
+			var err1, err2 error
+			in, err1 = lowerJSX(in)
+			out, err2 = lowerJSX(out)
+			if err1 != nil {
+				st.Histogram["glue-transform-rejected"]++
+				continue
+			}
+			if err2 != nil {
+				st.Fail("glue-output-not-parseable", map[string]interface{}{"scenario": c.scenario, "options": c.optDesc, "input": c.src, "output": string(res.Code)}, err2.Error(), "output parses")
+				continue
+			}
+		}
+		// top-level names of a script emitted without a wrapper stay what they were
+		if c.opts.Format == api.FormatDefault {
+			ep := epilogue(c.top)
+			in += ep
+			out += ep
+		}
+		// the returned mangle cache names the property that is really used
+		if c.opts.MangleProps != "" && res.MangleCache != nil {
+			var keys []string
+			for k := range res.MangleCache {
+				keys = append(keys, k)
+			}
+			sort.Strings(keys)
+			for _, k := range keys {
+				nk := k
+				if s, ok := res.MangleCache[k].(string); ok {
+					nk = s
+				}
+				in += fmt.Sprintf("$q(\"cache:%s\", () => $o[%q]);\n", k, k)
+				out += fmt.Sprintf("$q(\"cache:%s\", () => $o[%q]);\n", k, nk)
+			}
+		}
+		progs = append(progs, in, out)
+		pend = append(pend, pending{c: c, in: in, out: out})
+	}
+	if len(progs) == 0 {
+		return
+	}
+	results, err := RunNodeScripts(progs, 3000)
+	if err != nil {
+		panic(err)
+	}
+	var retry []pending
+	for i, p := range pend {
+		a, b := results[2*i], results[2*i+1]
+		if a.Err() == "SyntaxError" && len(a.Log) == 0 {
+			st.Histogram["glue-input-invalid"]++
+			continue
+		}
+		st.Histogram["glue-script-executed"]++
+		st.Histogram["glue-probes"] += len(a.Log)
+		if !a.Same(b) {
+			retry = append(retry, p)
+		} else if len(st.Samples) < 6 {
+			st.Sample(map[string]interface{}{"glue": "script", "options": p.c.optDesc, "probes": len(a.Log), "input_prefix": clipStr(p.c.src[len(progPrelude):], 200)})
+		}
+	}
+	// re-run every disagreement once more before reporting it
+	for _, p := range retry {
+		res, err := RunNodeScripts([]string{p.in, p.out}, 3000)
+		if err != nil {
+			panic(err)
+		}
+		if res[0].Same(res[1]) {
+			st.Histogram["glue-flaky"]++
+			continue
+		}
+		kind := "binding-changed-by-renaming"
+		if p.c.scenario != "" {
+			kind = "corpus-scenario-binding-changed"
+		}
+		st.Fail(kind, map[string]interface{}{"scenario": p.c.scenario, "api": "Transform", "options": p.c.optDesc, "input": p.c.src, "output_program": p.out},
+			firstDiff(res[0], res[1]), "the same probe log as the input program")
+	}
+}
+
+func clipStr(s string, n int) string {
+	if len(s) > n {
+		return s[:n]
+	}
+	return s
+}
+
+func firstDiff(a, b NodeResult) string {
+	for i := 0; i < len(a.Log) && i < len(b.Log); i++ {
+		if a.Log[i] != b.Log[i] {
+			return fmt.Sprintf("probe #%d: input logs %q, output logs %q", i, a.Log[i], b.Log[i])
+		}
+	}
+	return fmt.Sprintf("input: %d probes err=%q thrown=%q; output: %d probes err=%q thrown=%q", len(a.Log), a.Err(), a.Thrown, len(b.Log), b.Err(), b.Thrown)
+}
+
+// ---------------------------------------------------------------------------
+// module graphs through api.Build
+
+const moduleRunner = `
+import { createRequire } from "module";
+import fs from "fs";
+import { pathToFileURL } from "url";
+const require = createRequire(import.meta.url);
+const jobs = JSON.parse(fs.readFileSync(process.argv[2], "utf8"));
+let log = [];
+const fmt = (v, d) => {
+  d = d || 0;
+  if (v === undefined) return "undefined";
+  if (v === null) return "null";
+  if (typeof v === "string") return JSON.stringify(v);
+  if (typeof v === "function") return "function";
+  if (typeof v !== "object") return String(v);
+  if (d > 1) return "{...}";
+  if (Array.isArray(v)) return "[" + v.map(x => fmt(x, d + 1)).join(",") + "]";
+  return "{" + Object.keys(v).sort().map(k => JSON.stringify(k) + ":" + fmt(v[k], d + 1)).join(",") + "}";
+};
+globalThis.$p = function () { const a = []; for (let i = 0; i < arguments.length; i++) a.push(fmt(arguments[i])); log.push(a.join(" ")); return arguments[arguments.length - 1]; };
+globalThis.$v = function (x) { return typeof x === "function" ? (x.$id || "fn") : x; };
+globalThis.$q = function (tag, f) { let v; try { v = f(); } catch (e) { v = "!" + (e && e.constructor && e.constructor.name); } return $p(tag, v); };
+for (const g of jobs.globals) globalThis[g] = "g:" + g;
+const out = [];
+for (const job of jobs.jobs) {
+  log = [];
+  let error = null;
+  try {
+    let ns;
+    if (job.kind === "cjs") ns = require(job.path);
+    else ns = await import(pathToFileURL(job.path).href);
+    if (job.exports) { for (const k of Object.keys(ns).sort()) if (k !== "default" || job.kind !== "cjs") $p("export:" + k, $v(ns[k])); }
+  } catch (e) {
+    error = (e && e.constructor && e.constructor.name) || "unknown";
+    log.push("!threw " + error);
+  }
+  out.push({ log, error });
+}
+fs.writeFileSync(process.argv[3], JSON.stringify(out));
+`
+
+type modJob struct {
+	Kind    string `json:"kind"`
+	Path    string `json:"path"`
+	Exports bool   `json:"exports"`
+}
+
+type modResult struct {
+	Log   []string `json:"log"`
+	Error *string  `json:"error"`
+}
+
+func sameLog(a, b modResult) bool {
+	if len(a.Log) != len(b.Log) {
+		return false
+	}
+	for i := range a.Log {
+		if a.Log[i] != b.Log[i] {
+			return false
+		}
+	}
+	return true
+}
+
+type buildCase struct {
+	desc    map[string]interface{}
+	inJobs  []modJob
+	outJobs []modJob
+}
+
+func runModuleJobs(dir string, jobs []modJob) []modResult {
+	data, _ := json.Marshal(map[string]interface{}{"globals": jsGlobals, "jobs": jobs})
+	inp, outp, run := filepath.Join(dir, "jobs.json"), filepath.Join(dir, "results.json"), filepath.Join(dir, "run.mjs")
+	must(os.WriteFile(inp, data, 0o644))
+	must(os.WriteFile(run, []byte(moduleRunner), 0o644))
+	cmd := exec.Command("node", run, inp, outp)
+	cmd.Dir = dir
+	if outb, err := cmd.CombinedOutput(); err != nil {
+		panic(fmt.Sprintf("node module runner failed: %v: %s", err, outb))
+	}
+	raw, err := os.ReadFile(outp)
+	must(err)
+	var res []modResult
+	must(json.Unmarshal(raw, &res))
+	if len(res) != len(jobs) {
+		panic("module runner: result count")
+	}
+	return res
+}
+
+func must(err error) {
+	if err != nil {
+		panic(err)
+	}
+}
+
+type buildSpec struct {
+	files    []modFile
+	opts     api.BuildOptions
+	desc     string
+	kind     string
+	scenario string
+}
+
+func fixedBuildCorpus() []buildSpec {
+	return []buildSpec{{
+		scenario: "direct-eval-block-function-leaks-in-sloppy-bundle",
+		files: []modFile{
+			{name: "f0.mjs", src: "import \"./f1.mjs\";\n$q(1, () => typeof e);\n"},
+			{name: "f1.mjs", src: "{\n  function e($) { return eval(\"$\"); }\n}\n"},
+		},
+		opts: api.BuildOptions{Format: api.FormatCommonJS, Platform: api.PlatformNode, EntryPoints: []string{"f0.mjs"}},
+		desc: "format=cjs platform=node", kind: "cjs",
+	}}
+}
+
+func genBuildSpec(r *Rng, feat map[string]int) buildSpec {
+	g := &jsgen{r: r, module: true, features: feat, noEval: true} // direct eval under bundling: esbuild warns, names are renamed anyway
+	nfiles := r.Range(2, 4)
+	sp := buildSpec{files: g.moduleFiles(nfiles), kind: "esm"}
+	opts := api.BuildOptions{EntryPoints: []string{"f0.mjs"}}
+	var desc []string
+	if r.Chance(60) {
+		opts.MinifyIdentifiers = true
+		desc = append(desc, "minify-identifiers")
+	}
+	switch r.Intn(5) {
+	case 0:
+		opts.Format = api.FormatIIFE
+		desc = append(desc, "format=iife")
+	case 1:
+		opts.Format = api.FormatCommonJS
+		opts.Platform = api.PlatformNode
+		sp.kind = "cjs"
+		desc = append(desc, "format=cjs platform=node")
+	default:
+		opts.Format = api.FormatESModule
+		desc = append(desc, "format=esm")
+	}
+	if opts.Format == api.FormatESModule && nfiles >= 3 && r.Chance(40) {
+		opts.Splitting = true
+		opts.EntryPoints = []string{"f0.mjs", "f1.mjs"}
+		desc = append(desc, "splitting entries=f0,f1")
+	}
+	if r.Chance(15) {
+		opts.KeepNames = true
+		desc = append(desc, "keep-names")
+	}
+	sp.opts = opts
+	sp.desc = strings.Join(desc, " ")
+	return sp
+}
+
+func runBuildCases(r *Rng, n int, st *Stats, feat map[string]int) {
+	dir, err := os.MkdirTemp("", "verif-c15-")
+	must(err)
+	defer os.RemoveAll(dir)
+	var cases []buildCase
+	var jobs []modJob
+	specs := fixedBuildCorpus()
+	for i := 0; i < n; i++ {
+		specs = append(specs, genBuildSpec(r, feat))
+	}
+	for i, sp := range specs {
+		cdir := filepath.Join(dir, fmt.Sprintf("c%d", i))
+		must(os.MkdirAll(cdir, 0o755))
+		fmap := map[string]string{}
+		for _, f := range sp.files {
+			must(os.WriteFile(filepath.Join(cdir, f.name), []byte(f.src), 0o644))
+			fmap[f.name] = f.src
+		}
+		opts := sp.opts
+		opts.AbsWorkingDir = cdir
+		opts.Bundle = true
+		opts.Write = false
+		opts.Outdir = filepath.Join(cdir, "out")
+		opts.LogLevel = api.LogLevelSilent
+		kind := sp.kind
+		desc := []string{sp.desc}
+		ext := ".mjs"
+		if kind == "cjs" {
+			ext = ".cjs"
+		}
+		opts.OutExtension = map[string]string{".js": ext}
+		res := api.Build(opts)
+		st.Evaluations++
+		st.Histogram["glue-build"]++
+		if len(res.Errors) > 0 {
+			st.Histogram["glue-build-rejected"]++
+			continue
+		}
+		for _, f := range res.OutputFiles {
+			must(os.MkdirAll(filepath.Dir(f.Path), 0o755))
+			must(os.WriteFile(f.Path, f.Contents, 0o644))
+		}
+		bc := buildCase{desc: map[string]interface{}{"api": "Build", "scenario": sp.scenario, "options": strings.Join(desc, " "), "files": fmap}}
+		outs := map[string]string{}
+		for _, f := range res.OutputFiles {
+			outs[filepath.Base(f.Path)] = string(f.Contents)
+		}
+		bc.desc["outputs"] = outs
+		for _, e := range opts.EntryPoints {
+			withExports := opts.Format != api.FormatIIFE
+			bc.inJobs = append(bc.inJobs, modJob{Kind: "esm", Path: filepath.Join(cdir, e), Exports: withExports})
+			bc.outJobs = append(bc.outJobs, modJob{Kind: kind, Path: filepath.Join(cdir, "out", strings.TrimSuffix(e, ".mjs")+ext), Exports: withExports})
+		}
+		cases = append(cases, bc)
+		jobs = append(jobs, bc.inJobs...)
+		jobs = append(jobs, bc.outJobs...)
+	}
+	if len(jobs) == 0 {
+		return
+	}
+	results := runModuleJobs(dir, jobs)
+	k := 0
+	for _, bc := range cases {
+		ne := len(bc.inJobs)
+		ins, outs := results[k:k+ne], results[k+ne:k+2*ne]
+		k += 2 * ne
+		bad := ""
+		probes := 0
+		invalid := false
+		for e := 0; e < ne; e++ {
+			if ins[e].Error != nil && *ins[e].Error == "SyntaxError" {
+				invalid = true
+			}
+			probes += len(ins[e].Log)
+			if !sameLog(ins[e], outs[e]) && bad == "" {
+				bad = firstDiff(NodeResult{Log: ins[e].Log, Error: ins[e].Error}, NodeResult{Log: outs[e].Log, Error: outs[e].Error})
+			}
+		}
+		if invalid {
+			st.Histogram["glue-input-invalid"]++
+			continue
+		}
+		st.Histogram["glue-bundle-executed"]++
+		st.Histogram["glue-probes"] += probes
+		if bad != "" {
+			// re-run this case alone before reporting
+			again := runModuleJobs(dir, append(append([]modJob{}, bc.inJobs...), bc.outJobs...))
+			still := false
+			for e := 0; e < ne; e++ {
+				if !sameLog(again[e], again[ne+e]) {
+					still = true
+				}
+			}
+			if !still {
+				st.Histogram["glue-flaky"]++
+				continue
+			}
+			what := "binding-changed-by-renaming"
+			if bc.desc["scenario"] != "" {
+				what = "corpus-scenario-binding-changed"
+			}
+			st.Fail(what, bc.desc, bad, "the same probe log and export names as the input module graph")
+		} else if len(st.Samples) < 8 {
+			st.Sample(map[string]interface{}{"glue": "bundle", "options": bc.desc["options"], "probes": probes})
+		}
+	}
+}
+
+func runGlue(r *Rng, n int, tier string, st *Stats) {
+	feat := map[string]int{}
+	cases := fixedScriptCorpus()
+	ns := n / 3
+	if ns < 40 {
+		ns = 40
+	}
+	for i := 0; i < ns; i++ {
+		cases = append(cases, genScriptCase(r, feat))
+	}
+	runScriptCases(cases, st)
+	nb := n / 6
+	if nb < 20 {
+		nb = 20
+	}
+	runBuildCases(r, nb, st, feat)
+	for k, v := range feat {
+		st.Histogram["feature:"+k] += v
+	}
+}
